@@ -36,6 +36,9 @@ THEOREMS = [
     "C07_usage_ok_from_validation", "C07_validated_request_sound", "C07_validated25_request_sound",
     "C07_usage_ok_example", "C07_dir_if_is_directive_arguments", "C07_collector_skip_is_general",
     "C07_user_exception_bubbles", "C07_user_exception_bubbles_list", "C07_user_exception_bubbles_request",
+    "C07_exec_directive_sound", "C07_validated_directive_args_sound",
+    "C07_single_value_wraps_every_level", "C07_single_literal_wraps_every_level", "C07_list_corners",
+    "C07_checkers_sound",
     "C07_example",
 ]
 AXIOMS_OK = []
@@ -175,6 +178,9 @@ def corpus():
     val(G.L(G.N("Odd", True)), [None, 4, 13, 5], "user-exception")
     val(G.N("Node"), {"odds": [1, 13]}, "user-exception")           # `value` missing AND the exception
     val(G.N("Node"), {"value": 1, "odds": [2], "zz": 1}, "user-exception")
+    # a provided field is refused (held back) and a later field raises: the exception wins
+    val(G.N("Node"), {"value": "x", "odds": [13]}, "user-exception")
+    val(G.N("Node"), {"odds": [13], "value": "x", "next": {"value": None}}, "user-exception")
     lit(G.N("Odd"), "13", label="user-exception")
     lit(G.L(G.N("Odd")), "[3, 13, 2]", label="user-exception")
     ex([{"name": "o", "py": "o_py", "type": G.L(G.N("Odd", True)), "default": None}],
@@ -923,9 +929,10 @@ def to_coq(case, obs):
 
 
 def show_expr(case, obs):
+    t = to_coq(case, obs)
     if case["kind"] == "abs":
-        return "model_C07_items %s" % to_coq(case, obs)
-    return "model_C07 %s" % to_coq(case, obs)
+        return "(model_C07_items %s, agree_model_C07 %s, spec_check_C07 %s)" % (t, t, t)
+    return "(model_C07 %s, agree_model_C07 %s, spec_check_C07 %s)" % (t, t, t)
 
 
 # -------------------------------------------------------------- verdicts
